@@ -1,6 +1,6 @@
 import json
 import hv
-from hv import runner, gen, e1
+from hv import runner, gen, e1, e3
 from hv.props import _common
 
 PID = 'C06'
@@ -31,6 +31,7 @@ def run(tier):
     for hist, err in r['violations']:
         run.violation(f'C06|e1|{err[:60]}', dict(engine='e1', history=[list(o) for o in hist]), err)
     gen.explore(run, PID, tier)
+    e3.explore_all(run, PID, tier)
     return run.finish()
 
 
@@ -38,4 +39,6 @@ def replay(case):
     if case.get('engine') == 'e1':
         impl, model, err = e1.build([tuple(o) for o in case['history']])
         return (err is None), (err or 'history passes')
+    if case.get('engine') == 'e3':
+        return _common.e3_replay(PID, case)
     return _common.gen_replay(PID)(case)
